@@ -18,8 +18,9 @@ Fl(lo, hi) == [t |-> "float", lo |-> lo, hi |-> hi]
 One(cands) == Ch(1, cands, FALSE, FALSE)
 C2 == <<Const, Const>>
 C3 == <<Const, Const, Const>>
+C4 == <<Const, Const, Const, Const>>
 
-SpecNames == <<"A", "B", "C", "D", "E", "F", "H", "I", "G">>
+SpecNames == <<"A", "B", "C", "D", "E", "F", "H", "I", "J", "G">>
 SpecOf(n) ==
   CASE n = "A" -> Sp(<<One(C3), One(C2)>>)                                         \* two independent choices
     [] n = "B" -> Sp(<<One(<<Sp(<<One(C2)>>), Const, Sp(<<One(C3)>>)>>)>>)          \* conditional sub-spaces
@@ -29,6 +30,7 @@ SpecOf(n) ==
     [] n = "F" -> Sp(<<Ch(2, C3, FALSE, TRUE), One(C2)>>)                           \* sorted with repetition
     [] n = "H" -> Sp(<<Ch(2, C3, FALSE, FALSE)>>)                                   \* free 2 of 3
     [] n = "I" -> Sp(<<One(<<Sp(<<Ch(2, C3, TRUE, FALSE)>>), Const>>), One(C2)>>)   \* multi-choice under a condition
+    [] n = "J" -> Sp(<<Ch(4, C4, TRUE, FALSE), Ch(3, C3, TRUE, FALSE)>>)                \* two permutation points
     [] n = "G" -> Sp(<<One(C3), Fl(0, 1000)>>)                                      \* with a float point
 HasFloat(n) == n = "G"
 
